@@ -543,6 +543,13 @@ class ProbeEngine(object):
                         ch.cores[p].state = STATES[t.draw(len(STATES))]
                         ch.cores[p].app_id = 1 + t.draw(255)
                         ch.cores[p].name = "app%d" % t.draw(99)
+                        if t.draw(5) == 0:
+                            # a name filling the 16-byte field (no NUL), or
+                            # one short of it, or empty
+                            ch.cores[p].name = [
+                                "sixteen_chars_%02d" % t.draw(99),
+                                "fifteen_char_%02d" % t.draw(99), ""][
+                                    t.draw(3)]
                         ch.cores[p].user = [t.draw(1 << 32) for _ in range(4)]
             if t.draw(4) == 0:
                 # some cores idle even where the global pattern says busy
